@@ -30,6 +30,7 @@ type Obligation struct {
 	TimeoutMs      int
 	Budget         int
 	MaxPaths       int
+	DeadlineSec    int // time box for this obligation (exploration reported as truncated when hit)
 	MapOrder       string
 	MapOrderBudget int
 	Solver         string
@@ -159,6 +160,7 @@ func cmdCheck(args []string) int {
 	logsmt := fs.String("logsmt", "", "directory for solver transcripts")
 	symReplay := fs.String("sym-replay", "", "run the harness of a replay file in the interpreter with concrete inputs")
 	noIfConv := fs.Bool("no-ifconv", false, "disable if-conversion")
+	verbose := fs.Bool("v", false, "verbose notes (if-conversion abort reasons)")
 	shadow := fs.Bool("shadow", false, "validate every symbolic operation against concrete semantics under the path model")
 	fs.Parse(args)
 	if *replay != "" {
@@ -207,8 +209,10 @@ func cmdCheck(args []string) int {
 	} else {
 		// harness packages that reference the generated data must not be loaded without it
 		for k := range c.overlay {
-			if !strings.Contains(k, "/morton/") {
-				delete(c.overlay, k)
+			for dir := range genPackages {
+				if strings.Contains(k, "/"+dir+"/") {
+					delete(c.overlay, k)
+				}
 			}
 		}
 	}
@@ -260,6 +264,7 @@ func cmdCheck(args []string) int {
 		r.Subst = p.SetSubst(o.Subst)
 		p.NoIfConv = *noIfConv
 		p.Shadow = *shadow
+		p.Verbose = *verbose
 		p.Concrete = nil
 		if *symReplay != "" {
 			var d replayDoc
@@ -285,6 +290,10 @@ func cmdCheck(args []string) int {
 		}
 		opts.LogSMT = *logsmt
 		opts.Progress = true
+		opts.Seed = seed
+		if o.DeadlineSec > 0 {
+			opts.Deadline = time.Duration(o.DeadlineSec) * time.Second
+		}
 		fmt.Fprintf(os.Stderr, "== %s/%s [%s] ...\n", o.Pkg, o.Harness, o.Mode)
 		var onPath func(*Exec, PathResult)
 		var cutMu sync.Mutex
@@ -512,6 +521,11 @@ func cmdCheck(args []string) int {
 				lines = append(lines, fmt.Sprintf("VACUOUS harness=%s cover=%s", r.Obl.Harness, cv))
 			}
 		}
+		if *verbose {
+			for _, n := range res.Notes {
+				fmt.Fprintf(os.Stderr, "   NOTE %s\n", n)
+			}
+		}
 		if res.ByStatus["unsupported"] > 0 || res.ByStatus["inconclusive"] > 0 {
 			inconclusive += res.ByStatus["unsupported"] + res.ByStatus["inconclusive"]
 			for _, pr := range res.Problems {
@@ -665,7 +679,7 @@ func nativeReplay(repo, hdir, work, pkg, harness, replayPath string) (string, st
 	ovb, _ := json.Marshal(map[string]any{"Replace": repl})
 	ovf := filepath.Join(work, "overlay.json")
 	os.WriteFile(ovf, ovb, 0o644)
-	cmd := exec.Command("timeout", "300", "go", "test", "-vet=off", "-count=1", "-overlay", ovf, "-run", "^TestVerifReplay$", "-v", "./"+pkg)
+	cmd := exec.Command("timeout", "300", "go", "test", "-vet=off", "-count=1", "-timeout", "120s", "-overlay", ovf, "-run", "^TestVerifReplay$", "-v", "./"+pkg)
 	cmd.Dir = repo
 	cmd.Env = append(os.Environ(), "GOFLAGS=-mod=mod", "GOPROXY=off", "GOSUMDB=off", "GOTOOLCHAIN=local",
 		"VERIF_REPLAY="+replayPath, "VERIF_HARNESS="+harness)
@@ -678,6 +692,12 @@ func nativeReplay(repo, hdir, work, pkg, harness, replayPath string) (string, st
 				return f[1], l + "\n" + grepLines(outs, "VERIF-REPLAY-PANIC") + "\n" + grepLines(outs, "VERIF-EMIT")
 			}
 		}
+	}
+	if strings.Contains(outs, "all goroutines are asleep") {
+		return "panic", "fatal error: all goroutines are asleep - deadlock!"
+	}
+	if strings.Contains(outs, "panic: test timed out") {
+		return "timeout", "native replay: test timed out"
 	}
 	if ee, ok := err.(*exec.ExitError); ok && ee.ExitCode() == 124 {
 		return "timeout", "native replay timed out"
